@@ -12,13 +12,14 @@ import (
 type oC13 struct {
 	r         *e2e
 	reporting map[string]string // fetch actor -> host of the report in progress ("" once H's bucket was dropped meanwhile)
+	reportT   map[string]int64  // fetch actor -> simulated time at which that report was issued (the penalty runs from no earlier than this)
 	failRet   map[string]*Event // host -> event that marks the return of the latest throttling report
 	waitAfter map[string]*Event // fetch actor -> report its Wait was entered after
 	hostOf    map[string]string
 }
 
 func newOC13(r *e2e) *oC13 {
-	return &oC13{r: r, reporting: map[string]string{}, failRet: map[string]*Event{}, waitAfter: map[string]*Event{}, hostOf: map[string]string{}}
+	return &oC13{r: r, reporting: map[string]string{}, failRet: map[string]*Event{}, waitAfter: map[string]*Event{}, hostOf: map[string]string{}, reportT: map[string]int64{}}
 }
 
 func (o *oC13) Name() string { return "C13" }
@@ -34,13 +35,18 @@ func (o *oC13) OnEvent(k *Kernel, ev *Event) {
 			st, _ := ev.raw[3].(int)
 			if st == 429 || st == 403 || st == 408 || st == 425 {
 				o.reporting[ev.Actor] = host
+				o.reportT[ev.Actor] = ev.T
 			}
 		}
 	case "fetch.retry.sleep", "fetch.failed":
 		// the first event of this fetch after AdjustOnFailure has returned
 		if host, ok := o.reporting[ev.Actor]; ok {
 			if host != "" {
-				o.failRet[host] = ev
+				// ordering is judged from this event on (the report has returned), the 5 s from the moment the report was issued
+				// (between the two the fetch may have waited for its WARC write)
+				cp := *ev
+				cp.T = o.reportT[ev.Actor]
+				o.failRet[host] = &cp
 				k.Probe("c13-throttling-reports")
 			}
 			delete(o.reporting, ev.Actor)
